@@ -8,6 +8,7 @@ REGISTRY = {
     "C23": ("modelhist", "ModelHist"),
     "C24": ("modelhist", "ModelHist"),
     "C25": ("stnhist", "StnHist"),
+    "C31": ("metasim", "MetaSim"),
     "C35": ("envsim", "EnvSim"),
     "C36": ("statehist", "StateHist"),
     "C38": ("writerhist", "WriterHist"),
